@@ -60,6 +60,10 @@ type plCfg struct {
 	SBHosts      []string
 	ParHosts     []string
 	Clients      []plClient
+	// CacheOn switches the dnsproxy response cache on (used only by the
+	// repeat mode: the model has no cache, it states that a repeated
+	// question gets the verdict of a fresh one).
+	CacheOn bool
 }
 
 // plServices is the (fixed) table of test services registered next to the
@@ -148,7 +152,7 @@ func (c *plCfg) Desc() map[string]any {
 		"ip4": c.IP4.String(), "ip6": c.IP6.String(), "ttl": c.TTL, "aaaa_disabled": c.AAAADisabled,
 		"blocked_services": c.Svcs, "services_paused": c.SvcPaused,
 		"custom_rules": vfRuleTexts(c.Custom), "block_list": vfRuleTexts(c.Block), "allow_list": vfRuleTexts(c.Allow),
-		"sb_hosts": c.SBHosts, "parental_hosts": c.ParHosts, "clients": c.Clients,
+		"sb_hosts": c.SBHosts, "parental_hosts": c.ParHosts, "clients": c.Clients, "proxy_cache": c.CacheOn,
 	}
 }
 
@@ -310,6 +314,7 @@ func plNewServer(t *testing.T, c *plCfg) *plServer {
 			EDNSClientSubnet: &EDNSClientSubnet{Enabled: false},
 			ClientsContainer: EmptyClientsContainer{},
 			AAAADisabled:     c.AAAADisabled,
+			CacheSize:        map[bool]uint32{false: 0, true: 1 << 20}[c.CacheOn],
 		},
 		ConfigModified: func() {},
 		ServePlainDNS:  true,
@@ -374,7 +379,10 @@ func plRRCoq(rr dns.RR) string {
 		}
 		data = vfApp("DHTTPS", vfList("svcparam", ps))
 	default:
-		data = vfApp("DOther", vfN(uint64(h.Rrtype)), vfN(uint64(vfStrHash(rr.String()))))
+		// the id identifies the record's content; the TTL is a field of its own
+		cp := dns.Copy(rr)
+		cp.Header().Ttl = 0
+		data = vfApp("DOther", vfN(uint64(h.Rrtype)), vfN(uint64(vfStrHash(cp.String()))))
 	}
 	return vfApp("mkRR", vfBytes(h.Name), vfN(uint64(h.Ttl)), data)
 }
@@ -495,7 +503,20 @@ func plResultCoq(r *filtering.Result) string {
 }
 
 // plCaseCoq renders the whole case for Run/PipeCase.v.
-func plCaseCoq(c *plCfg, q *plQuery, o *plObs) string {
+func plCaseCoq(c *plCfg, q *plQuery, o *plObs) string { return plCaseCoqAs("CPipe", c, q, o) }
+
+// reloadFilters loads the configuration's current rule lists into the engines.
+func (ps *plServer) reloadFilters(t *testing.T) {
+	err := ps.s.dnsFilter.VerifSetFilters(
+		[]filtering.Filter{plFilters(0, ps.cfg.Custom), plFilters(10, ps.cfg.Block)},
+		[]filtering.Filter{plFilters(20, ps.cfg.Allow)},
+	)
+	if err != nil {
+		t.Fatalf("reload filters: %v", err)
+	}
+}
+
+func plCaseCoqAs(ctor string, c *plCfg, q *plQuery, o *plObs) string {
 	cl := c.clientFor(q.Addr)
 	clCoq := vfOpt("pclient", cl != nil, "")
 	if cl != nil {
@@ -511,7 +532,7 @@ func plCaseCoq(c *plCfg, q *plQuery, o *plObs) string {
 		res = vfOpt("resp", true, plRespCoq(o.Res))
 	}
 	obs := vfApp("mkOutcome", res, plCallsCoq(o.Calls), plResultCoq(o.Result), vfBool(o.OrigKept), vfBool(o.Logged))
-	return vfApp("CPipe", c.Coq(), vfRulesCoq(c.Allow), vfRulesCoq(c.BlockRules()),
+	return vfApp(ctor, c.Coq(), vfRulesCoq(c.Allow), vfRulesCoq(c.BlockRules()),
 		vfBytesList(c.SBHosts), vfBytesList(c.ParHosts), reqCoq, up, obs)
 }
 
@@ -608,15 +629,25 @@ func plIsSynthetic(c *plCfg, q *plQuery, res *dns.Msg, ips []netip.Addr) (ok boo
 // plSameRecords reports whether the delivered answer is the scripted one
 // (IPv6 hints removed from HTTPS records when AAAA is disabled and strip is set).
 func plSameRecords(got, want []dns.RR, strip bool) bool {
+	return plSameRecordsTTL(got, want, strip, false)
+}
+
+// plSameRecordsTTL: with anyTTL the TTLs are not compared (the proxy cache
+// rewrites them).
+func plSameRecordsTTL(got, want []dns.RR, strip, anyTTL bool) bool {
 	if len(got) != len(want) {
 		return false
 	}
 	for i := range got {
 		w := dns.Copy(want[i])
+		g := dns.Copy(got[i])
 		if h, ok := w.(*dns.HTTPS); ok && strip {
 			removeIPv6HintsRef(h)
 		}
-		if got[i].String() != w.String() {
+		if anyTTL {
+			w.Header().Ttl, g.Header().Ttl = 0, 0
+		}
+		if g.String() != w.String() {
 			return false
 		}
 	}
